@@ -89,10 +89,6 @@ def fileCellContent (lo : List Int) (ext : List Nat) (g : GridGeom) (cfs : List 
     ⟨ct, (vtkCorners ct).map (fun δ => geomAtLo lo ext g (expand ext (addIdx (unflatten nz c) δ))),
      cfs.map fun cf => (cf.1, cf.2.row c)⟩
 
-/-- class predicate of the image-offset finding: image data whose extent does not start at 0 -/
-def imageOffset (lo : List Int) : GridGeom → Bool
-  | .image .. => lo.any (· != 0)
-  | _ => false
 
 /-- cell items (normalised to quad/hexahedron): every lattice cell with its corners' coordinates in
     VTK order and row `c` of every cell field -/
